@@ -29,11 +29,11 @@ def gridTrue (fs : Float) (n j : Nat) : Float := (j.toFloat * (1 / n.toFloat)) *
 
 /-- is bin `k` (0 ≤ k < n) kept?  DC always; otherwise its grid frequency must not be `< lb` nor `> ub`.
 The code nulls `idx` and `-idx` for every `idx ≤ n/2` outside the band, i.e. bin `k` is judged by
-the grid entry `min(k, n-k)`. -/
-def keepBin (grid : Nat → Float) (lb ub : Float) (n k : Nat) : Bool :=
+the grid entry `min(k, n-k)`.  (Polymorphic in the ordered scalar: `Float` when run.) -/
+def keepBin {K : Type} [LT K] [DecidableLT K] (grid : Nat → K) (lb ub : K) (n k : Nat) : Bool :=
   if k = 0 then true else
   let j := if k ≤ n - k then k else n - k
-  !(grid j < lb) && !(grid j > ub)
+  !(decide (grid j < lb)) && !(decide (ub < grid j))
 
 def filteredFourierWith (grid : Nat → Float) (ubDefault lb : Float) (ub : Option Float) (n : Nat) (x : List Float) :
     List Float :=
